@@ -23,12 +23,38 @@ func RenderDOCX(d Doc) Rendered {
 	b.WriteString(xmlDecl)
 	fmt.Fprintf(&b, `<w:document xmlns:w="%s" xmlns:r="%s"><w:body>`, nsW, nsR)
 	insID := 1
+	var wrapOpen []string
 	bases := make([]int, len(d.Body))
 	for i, blk := range d.Body {
 		bases[i] = cnt.n
 		switch blk.K {
+		case "WO": // block-level wrappers (17.5.2.29 sdt, 17.5.1.6 customXml): transparent containers
+			if blk.How == "sdt" {
+				fmt.Fprintf(&b, `<w:sdt><w:sdtPr><w:id w:val="%d"/></w:sdtPr><w:sdtContent>`, 5000+i)
+			} else {
+				b.WriteString(`<w:customXml w:uri="urn:verif" w:element="block">`)
+			}
+			wrapOpen = append(wrapOpen, blk.How)
+		case "WC":
+			if wrapOpen[len(wrapOpen)-1] == "sdt" {
+				b.WriteString(`</w:sdtContent></w:sdt>`)
+			} else {
+				b.WriteString(`</w:customXml>`)
+			}
+			wrapOpen = wrapOpen[:len(wrapOpen)-1]
+		case "M":
+			switch blk.How {
+			case "bookmark": // 17.13.6: range markers between blocks
+				fmt.Fprintf(&b, `<w:bookmarkStart w:id="%d" w:name="bm%d"/><w:bookmarkEnd w:id="%d"/>`, 7000+i, i, 7000+i)
+			case "proofErr":
+				b.WriteString(`<w:proofErr w:type="spellStart"/><w:proofErr w:type="spellEnd"/>`)
+			case "sdtempty":
+				fmt.Fprintf(&b, `<w:sdt><w:sdtPr><w:id w:val="%d"/></w:sdtPr><w:sdtContent/></w:sdt>`, 6000+i)
+			default:
+				panic("wpw: marker " + blk.How + " is not in the DOCX alphabet")
+			}
 		case "TBL":
-			docxTable(&b, blk.Tb, cnt, i)
+			docxTable(&b, blk, cnt, i)
 		default:
 			if blk.K == "LI" && blk.How == "emp" { // an empty numbered paragraph of this level first
 				b.WriteString("<w:p>" + docxPPr(blk, d.Sheet) + "</w:p>")
@@ -176,7 +202,8 @@ func docxChild(b *strings.Builder, ch Child, cnt *counter, o Origin, insID *int)
 	}
 }
 
-func docxTable(b *strings.Builder, t Tbl, cnt *counter, blk int) {
+func docxTable(b *strings.Builder, tb Block, cnt *counter, blk int) {
+	t := tb.Tb
 	b.WriteString(`<w:tbl><w:tblPr><w:tblW w:w="0" w:type="auto"/></w:tblPr><w:tblGrid>`)
 	for c := 0; c < t.Cols; c++ {
 		b.WriteString(`<w:gridCol w:w="2000"/>`)
@@ -201,6 +228,9 @@ func docxTable(b *strings.Builder, t Tbl, cnt *counter, blk int) {
 					o.Merge = "v"
 				}
 				b.WriteString("</w:tcPr>")
+				if tb.How == "cellsdt" { // the cell's paragraphs inside a cell-level content control
+					fmt.Fprintf(b, `<w:sdt><w:sdtPr><w:id w:val="%d"/></w:sdtPr><w:sdtContent>`, 8000+cnt.n)
+				}
 				for p := 0; p < g.Np; p++ {
 					if p == 0 && g.Rich { // text and a symbol in one run
 						o.Rich = true
@@ -211,6 +241,9 @@ func docxTable(b *strings.Builder, t Tbl, cnt *counter, blk int) {
 						continue
 					}
 					fmt.Fprintf(b, "<w:p><w:r><w:t>%s</w:t></w:r></w:p>", TokText(cnt.next(o)))
+				}
+				if tb.How == "cellsdt" {
+					b.WriteString(`</w:sdtContent></w:sdt>`)
 				}
 				b.WriteString("</w:tc>")
 			}
